@@ -442,6 +442,13 @@ func c19BackendCheck(ci interface{}) lib.Outcome {
 			want = append(want, fmt.Sprintf("%s|%s|%s|%s|%v|%d|%d", p, m.MatchType, m.Name, m.Variant, m.Confidence, m.StartLine, m.EndLine))
 		}
 	}
+	if os.Getenv("VERIF_MODE") == "replay" {
+		// schedule-dependent failures (a panic on one of the backend's goroutines kills the process) need not show on
+		// the first attempt: a replay repeats the call
+		for k := 0; k < 40; k++ {
+			c19Be.ClassifyLicenses(c.Tasks, paths, c.Headers)
+		}
+	}
 	before := len(c19Be.GetResults())
 	if errs := c19Be.ClassifyLicenses(c.Tasks, paths, c.Headers); len(errs) > 0 {
 		return lib.Outcome{Violation: fmt.Sprintf("ClassifyLicenses(%d tasks) returned errors: %v", c.Tasks, errs)}
